@@ -1028,3 +1028,128 @@ Qed.
 
 Lemma classic_matchers_no_panic is_space compiles s : classic_matchers is_space compiles s <> Panic.
 Proof. pose proof (classic_matchers_fine is_space compiles s) as H. intros E. rewrite E in H. exact H. Qed.
+
+(* ---------- classic parser on the printed form of a matcher whose name is a classic label name ---------- *)
+Definition cname (n : list Z) : bool := match n with c :: r => name_start c && forallb name_char r | [] => false end.
+
+Lemma name_char_not_space c : name_char c = true -> re_space c = false.
+Proof. unfold name_char, name_start, re_space. intros H. lia. Qed.
+
+Lemma valid_raw X : Forall canon X -> valid_utf8 (raw X) = true.
+Proof.
+  intros HX. unfold valid_utf8. pose proof (decode_all_raw X [] HX) as H. rewrite app_nil_r in H.
+  change (decode_all []) with (@nil (Z * list Z)) in H. rewrite app_nil_r in H. rewrite H.
+  apply forallb_forall. intros x Hin. rewrite List.Forall_forall in HX. destruct (HX x Hin) as (_ & _ & Hb). rewrite Hb. reflexivity.
+Qed.
+
+Lemma rtrim_last X : rtrim_ws (X ++ [34]) = X ++ [34].
+Proof. unfold rtrim_ws. rewrite rev_app_distr. simpl. unfold dropw. simpl. rewrite rev_involutive. reflexivity. Qed.
+
+Lemma classic_unescape_esc V : Forall canon V ->
+  classic_unescape (flat_map esc_rune V ++ [asc 34]) false true = Ok (raw V).
+Proof.
+  induction 1 as [|[r bs] V Hc HV IH]; [reflexivity|].
+  simpl flat_map. change (raw ((r, bs) :: V)) with (bs ++ raw V). unfold esc_rune at 1. simpl fst.
+  destruct (r =? 92) eqn:E1.
+  { assert (r = 92) by lia. subst r. rewrite (canon_ascii 92 bs Hc) by lia.
+    simpl app. cbn [classic_unescape]. simpl. rewrite IH. reflexivity. }
+  destruct (r =? 10) eqn:E2.
+  { assert (r = 10) by lia. subst r. rewrite (canon_ascii 10 bs Hc) by lia.
+    simpl app. cbn [classic_unescape]. simpl. rewrite IH. reflexivity. }
+  destruct (r =? 34) eqn:E3.
+  { assert (r = 34) by lia. subst r. rewrite (canon_ascii 34 bs Hc) by lia.
+    simpl app. cbn [classic_unescape]. simpl. rewrite IH. reflexivity. }
+  simpl app. cbn [classic_unescape]. simpl fst. rewrite E1, E3. rewrite IH. simpl. rewrite (encode_decode r bs Hc). reflexivity.
+Qed.
+
+Lemma dropw_head_false {A} (f : A -> bool) x l : f x = false -> dropw f (x :: l) = x :: l.
+Proof. intros H. unfold dropw. rewrite H. reflexivity. Qed.
+
+Lemma op_head t rest : exists c tl, op_bytes t ++ rest = c :: tl /\ name_char c = false /\ re_space c = false.
+Proof. destruct t; simpl; eexists _, _; repeat split; reflexivity. Qed.
+
+Lemma classic_split_printed n t body :
+  cname n = true ->
+  classic_split (n ++ op_bytes t ++ 34 :: body ++ [34]) = Some (n, t, 34 :: body ++ [34]).
+Proof.
+  intros Hn. destruct n as [|c n']; [discriminate|]. simpl in Hn. apply andb_true_iff in Hn as [Hc Hn'].
+  assert (Hcc : name_char c = true) by (unfold name_char; rewrite Hc; reflexivity).
+  unfold classic_split.
+  change ((c :: n') ++ op_bytes t ++ 34 :: body ++ [34]) with (c :: (n' ++ op_bytes t ++ 34 :: body ++ [34])).
+  rewrite (dropw_head_false re_space c _ (name_char_not_space c Hcc)). rewrite Hc.
+  destruct (op_head t (34 :: body ++ [34])) as (oc & otl & Ho & Hon & Hos).
+  assert (Hall : forallb name_char (c :: n') = true) by (simpl; rewrite Hcc, Hn'; reflexivity).
+  change (c :: (n' ++ op_bytes t ++ 34 :: body ++ [34])) with ((c :: n') ++ (op_bytes t ++ 34 :: body ++ [34])).
+  destruct (takew_dropw_app name_char (c :: n') (op_bytes t ++ 34 :: body ++ [34]) Hall) as [Ht Hd].
+  { rewrite Ho. exact Hon. }
+  rewrite Ht, Hd. rewrite Ho. rewrite (dropw_head_false re_space oc otl Hos).
+  assert (Hv : rtrim_ws (dropw re_space (34 :: body ++ [34])) = 34 :: body ++ [34]).
+  { rewrite dropw_head_false by reflexivity. apply (rtrim_last (34 :: body)). }
+  destruct t; simpl in Ho; injection Ho as <- <-; cbv iota; rewrite ?Hv; try reflexivity.
+Qed.
+
+Section ClassicRT.
+  Variable is_space : Z -> bool.
+  Variable is_print : Z -> bool.
+  Variable compiles : list Z -> bool.
+
+  Lemma classic_roundtrip_single m :
+    plain is_space compiles m -> cname (b_name m) = true ->
+    classic_matcher compiles (print_b is_space is_print m) = Ok m.
+  Proof.
+    intros Hp Hn. pose proof Hp as (Hne & Hvn & Hres & Hvv & Hre).
+    unfold print_b. rewrite Hres. unfold classic_matcher.
+    change ([34] ++ om_escape (b_value m) ++ [34]) with (34 :: om_escape (b_value m) ++ [34]).
+    rewrite classic_split_printed by exact Hn.
+    pose proof (valid_decode_canon _ Hvv) as HV.
+    assert (Hesc : om_escape (b_value m) = raw (flat_map esc_rune (decode_all (b_value m)))).
+    { rewrite raw_esc by exact HV. rewrite raw_decode_all. reflexivity. }
+    rewrite Hesc.
+    assert (HE : Forall canon (flat_map esc_rune (decode_all (b_value m)) ++ [asc 34])).
+    { apply Forall_app. split; [apply canon_esc, HV|]. apply List.Forall_cons; [apply canon_ascii_intro; lia|apply List.Forall_nil]. }
+    assert (Hraw : raw (flat_map esc_rune (decode_all (b_value m))) ++ [34]
+                   = raw (flat_map esc_rune (decode_all (b_value m)) ++ [asc 34])) by (rewrite raw_app; reflexivity).
+    rewrite Hraw. rewrite (valid_raw _ HE). simpl negb. cbv iota.
+    pose proof (decode_all_raw _ [] HE) as Hd. rewrite app_nil_r in Hd.
+    change (decode_all []) with (@nil (Z * list Z)) in Hd. rewrite app_nil_r in Hd. rewrite Hd.
+    rewrite classic_unescape_esc by exact HV. rewrite raw_decode_all. simpl res_bind.
+    unfold new_matcher. destruct (is_regex (b_type m)) eqn:Er; [rewrite (Hre eq_refl)|]; destruct m; reflexivity.
+  Qed.
+End ClassicRT.
+
+Lemma head_not_123 (s : list Z) c tl : s = c :: tl -> c <> 123 -> match s with 123 :: _ => true | _ => false end = false.
+Proof.
+  intros -> H. destruct c as [|p|p]; try reflexivity.
+  do 7 (destruct p as [p|p|]; try reflexivity). congruence.
+Qed.
+
+Section ClassicRT2.
+  Variable is_space : Z -> bool.
+  Variable is_print : Z -> bool.
+  Variable compiles : list Z -> bool.
+
+  Lemma print_no_brace m : plain is_space compiles m -> cname (b_name m) = true ->
+    has_brace (print_b is_space is_print m) = false.
+  Proof.
+    intros (Hne & Hvn & Hres & Hvv & Hre) Hn. unfold print_b. rewrite Hres. unfold has_brace.
+    destruct (b_name m) as [|c n'] eqn:En; [discriminate|]. simpl in Hn. apply andb_true_iff in Hn as [Hc _].
+    assert (c <> 123) as Hc' by (unfold name_start in Hc; lia).
+    simpl app at 1.
+    match goal with |- (match ?s with _ => _ end) || _ = _ =>
+      set (s1 := s); rewrite (head_not_123 s1 c _ eq_refl Hc'); clear s1 end.
+    change (c :: n' ++ op_bytes (b_type m) ++ [34] ++ om_escape (b_value m) ++ [34])
+      with ((c :: n') ++ op_bytes (b_type m) ++ [34] ++ om_escape (b_value m) ++ [34]).
+    rewrite !app_assoc. rewrite rev_app_distr. reflexivity.
+  Qed.
+
+  Lemma fallback_roundtrip_single_classic m : plain is_space compiles m -> cname (b_name m) = true ->
+    compat_matcher is_space compiles Fallback (print_b is_space is_print m) = Ok m /\
+    compat_matcher is_space compiles Classic (print_b is_space is_print m) = Ok m /\
+    compat_matcher is_space compiles Utf8Strict (print_b is_space is_print m) = Ok m.
+  Proof.
+    intros Hp Hn. simpl. rewrite (print_no_brace m Hp Hn).
+    unfold utf8_matcher. rewrite (roundtrip_single is_space is_print compiles m Hp).
+    rewrite (classic_roundtrip_single is_space is_print compiles m Hp Hn). simpl.
+    repeat split. apply fallback_both_accept.
+  Qed.
+End ClassicRT2.
